@@ -15,6 +15,7 @@ import (
 	"net/url"
 	"os"
 	"path/filepath"
+	"runtime"
 	"sort"
 	"strings"
 	"sync"
@@ -679,6 +680,29 @@ func OverwriteStress(seed int64, d time.Duration) []Problem {
 	return problems
 }
 
+// together runs f(0..n-1) in n goroutines that are released at the same instant (spin barrier: the callers are already
+// running on their cores when they are let go, which a WaitGroup release does not achieve).
+func together(n int, f func(k int)) {
+	var done sync.WaitGroup
+	var ready atomic.Int64
+	var goFlag atomic.Bool
+	for k := 0; k < n; k++ {
+		done.Add(1)
+		go func(k int) {
+			defer done.Done()
+			ready.Add(1)
+			for !goFlag.Load() {
+			}
+			f(k)
+		}(k)
+	}
+	for ready.Load() < int64(n) {
+		runtime.Gosched()
+	}
+	goFlag.Store(true)
+	done.Wait()
+}
+
 // DenyStress: several clients register the same fresh id with DenyOverwrite at once. DenyOverwrite is sticky
 // (Registry.tla: DenyStickyNode / DenyStickyPipeline): whatever the order, exactly one call succeeds, the others are
 // refused, and what is registered afterwards is the winner's node / pipeline.
@@ -691,20 +715,13 @@ func DenyStress(seed int64, rounds int) []Problem {
 		id := eventlogger.NodeID(fmt.Sprintf("deny-%d", i))
 		pid := eventlogger.PipelineID(fmt.Sprintf("denyp-%d", i))
 		sinks := make([]*countSink, callers)
-		var start, done sync.WaitGroup
-		start.Add(1)
 		nodeErr := make([]error, callers)
 		for k := 0; k < callers; k++ {
 			sinks[k] = &countSink{}
-			done.Add(1)
-			go func(k int) {
-				defer done.Done()
-				start.Wait()
-				nodeErr[k] = b.RegisterNode(id, sinks[k], eventlogger.WithNodeRegistrationPolicy(eventlogger.DenyOverwrite))
-			}(k)
 		}
-		start.Done()
-		done.Wait()
+		together(callers, func(k int) {
+			nodeErr[k] = b.RegisterNode(id, sinks[k], eventlogger.WithNodeRegistrationPolicy(eventlogger.DenyOverwrite))
+		})
 		okN, winner := 0, -1
 		for k, e := range nodeErr {
 			if e == nil {
@@ -718,17 +735,9 @@ func DenyStress(seed int64, rounds int) []Problem {
 		}
 		// pipelines: the same with the pipeline policy; the registered pipeline must then deliver to the winner's sink only
 		pipeErr := make([]error, callers)
-		start.Add(1)
-		for k := 0; k < callers; k++ {
-			done.Add(1)
-			go func(k int) {
-				defer done.Done()
-				start.Wait()
-				pipeErr[k] = b.RegisterPipeline(eventlogger.Pipeline{PipelineID: pid, EventType: "deny", NodeIDs: []eventlogger.NodeID{"fmt", id}}, eventlogger.WithPipelineRegistrationPolicy(eventlogger.DenyOverwrite))
-			}(k)
-		}
-		start.Done()
-		done.Wait()
+		together(callers, func(k int) {
+			pipeErr[k] = b.RegisterPipeline(eventlogger.Pipeline{PipelineID: pid, EventType: "deny", NodeIDs: []eventlogger.NodeID{"fmt", id}}, eventlogger.WithPipelineRegistrationPolicy(eventlogger.DenyOverwrite))
+		})
 		okP := 0
 		for _, e := range pipeErr {
 			if e == nil {
@@ -773,18 +782,7 @@ func SharedRemoveStress(seed int64, rounds int) []Problem {
 				return append(problems, Problem{"C04", "setup: " + err.Error()})
 			}
 		}
-		var start, done sync.WaitGroup
-		start.Add(1)
-		for p := 0; p < pipes; p++ {
-			done.Add(1)
-			go func(p int) {
-				defer done.Done()
-				start.Wait()
-				b.RemovePipeline("t", eventlogger.PipelineID(fmt.Sprintf("p%d", p)))
-			}(p)
-		}
-		start.Done()
-		done.Wait()
+		together(pipes, func(p int) { b.RemovePipeline("t", eventlogger.PipelineID(fmt.Sprintf("p%d", p))) })
 		for _, id := range ids {
 			if err := b.RemoveNode(context.Background(), id); err != nil {
 				problems = append(problems, Problem{"C04", fmt.Sprintf("after %d concurrent RemovePipeline calls removed every pipeline, node %q cannot be removed (%v): no sequential order of the removals leaves it in use", pipes, id, err)})
@@ -839,13 +837,13 @@ func AtomicityStress(seed int64, rounds int) []Problem {
 	var problems []Problem
 	ctx := context.Background()
 	race := func(f1, f2 func()) {
-		var start, done sync.WaitGroup
-		start.Add(1)
-		done.Add(2)
-		go func() { defer done.Done(); start.Wait(); f1() }()
-		go func() { defer done.Done(); start.Wait(); f2() }()
-		start.Done()
-		done.Wait()
+		together(2, func(k int) {
+			if k == 0 {
+				f1()
+			} else {
+				f2()
+			}
+		})
 	}
 	inUse := func(b *eventlogger.Broker, id eventlogger.NodeID) string {
 		// probe on a node we are willing to lose
@@ -1010,14 +1008,9 @@ func FirstUseStress(seed int64, rounds int) []Problem {
 	b.RegisterNode("sink", sink)
 	for i := 0; i < rounds && len(problems) < 4; i++ {
 		t := eventlogger.EventType(fmt.Sprintf("et-%d", i))
-		var start, done sync.WaitGroup
-		start.Add(1)
 		errs := make([]error, 3)
-		for k := 0; k < 3; k++ {
-			done.Add(1)
-			go func(k int) {
-				defer done.Done()
-				start.Wait()
+		{
+			together(3, func(k int) {
 				switch k {
 				case 0:
 					errs[0] = b.RegisterPipeline(eventlogger.Pipeline{PipelineID: "p", EventType: t, NodeIDs: []eventlogger.NodeID{"fmt", "sink"}})
@@ -1026,10 +1019,8 @@ func FirstUseStress(seed int64, rounds int) []Problem {
 				case 2:
 					errs[2] = b.SetSuccessThresholdSinks(t, 1)
 				}
-			}(k)
+			})
 		}
-		start.Done()
-		done.Wait()
 		if errs[0] != nil || errs[1] != nil || errs[2] != nil {
 			problems = append(problems, Problem{"C04", fmt.Sprintf("first-use calls failed: %v", errs)})
 			continue
